@@ -107,6 +107,11 @@ def gen_doc(tape: Tape, marker: str, style: str = "canonical", size: int = 0) ->
     if style == "unicode":
         lines.append('Ключ::"значение ☃ é 𝔘"')
         lines.append("ÅB::naïve")
+    if style == "oddchars":
+        # characters that text layers like to translate: a lone carriage return, LINE SEPARATOR, NEL, NUL, a byte-order mark and
+        # form feed / separators inside values, and CRLF inside a literal zone -- the bytes installed must be exactly the text reported
+        lines += ['CR::"a\rb"', 'LS::"a\u2028b\u2029c"', 'NEL::"a\x85b"', 'NUL::"a\x00b"', 'BOM::"a\ufeffb"', 'FS::"a\x0cb\x1cc\x1dd\x1e"',
+                  "LIT:", "```", "line1\r", "line2\rline3", "```"]
     if style == "longline":
         lines.append('LONG::"' + "x" * 20000 + '"')
     if style == "trail":
